@@ -40,6 +40,16 @@
 (*  flags  Chars, NoExec / NoFileWrites / NoFileReads / NoArgVars switched   *)
 (*         on in one run and off in the next (and the reverse), followed by  *)
 (*         runs that write and read files and start commands                 *)
+(*  fmt    printf / sprintf of %c (numbers above 127, multi-byte strings),    *)
+(*         %s of a number and %d, with format strings that are the same text *)
+(*         in every run (every kind does it in fp()) or built at run time    *)
+(*         (fmtc), in runs whose Config.Chars, CONVFMT and output mode differ *)
+(*         from run to run, in both orders                                   *)
+(*  depth  runs aborted 1 / 400 / 700 / CallLimit user-function calls deep    *)
+(*         (run-time error, exit 3, cancellation at the bottom of the        *)
+(*         recursion; runaway recursion stopped at the limit), once or       *)
+(*         twice, followed by a probe that nests 3 / 700 / CallLimit /       *)
+(*         CallLimit + 1 calls                                               *)
 (* mvs: the reset variants before runs that are not the last one; any: a     *)
 (* history with a reset is extended further.                                 *)
 (* Deep widens the families other than "reuse" (thorough tier).              *)
@@ -101,6 +111,22 @@ FamDef(f) ==
           rc |-> {"c0", "c6", "c7"},
           lk |-> {"p_io", "midfile", "sys", "pipe", "openout"},
           lc |-> {"c0", "c7"},
+          vs |-> {"none", "both"}, mvs |-> {"none", "both"}, any |-> FALSE]
+
+    [] f = "fmt" ->
+         [max |-> 3,
+          rk |-> {"plain", "setfs", "fmtc"},
+          rc |-> {"c0", "c1", "c6"},
+          lk |-> {"plain", "fmtc"},
+          lc |-> {"c0", "c6"},
+          vs |-> {"none", "both"}, mvs |-> {"none", "both"}, any |-> FALSE]
+
+    [] f = "depth" ->
+         [max |-> 3,
+          rk |-> {"dp_err", "dp_exit", "dp_cancel", "dp_ok", "plain", "errfunc"},
+          rc |-> {"c8", "c9", "c11"},
+          lk |-> {"dp_ok", "p_func"},
+          lc |-> {"c0", "c9", "c10", "c11"},
           vs |-> {"none", "both"}, mvs |-> {"none", "both"}, any |-> FALSE]
 
 VARIABLES st, h, open, fam
